@@ -4,13 +4,19 @@ package query
 
 // C24: query update statements change exactly the selected rows.
 // Action strings (insert record / insert query / delete / update) are parsed by ParseAction and
-// executed by DoAction in a transaction on t, u (k, a, b) key(k) index(a); the reported count
-// and the table contents are replayed by the Lean model Gsu.Model.Act, and checked directly:
-//   action:<kind>  [count] reported count != number of rows the predicate selects
-//                  [rows]  table afterwards != (unselected rows unchanged, selected rows changed as stated)
-//                  [error] the statement failed although the result has no duplicate key
-// The generator includes `set` expressions on the key column the statement iterates by
-// (k = k + d, k = k - d), on the indexed column a, and plain columns.
+// executed by DoAction in a transaction on t, u (k, a, b) key(k) index(a) and w (a, d) key(a); the
+// reported count and the table contents are replayed by the Lean model Gsu.Model.Act, and checked
+// directly (signature action:<kind>):
+//   [count] reported count != number of rows the statement's query selects
+//   [rows]  table afterwards != (unselected rows unchanged, selected rows changed only as stated)
+//   [error] the statement failed although the result has no duplicate key
+// update / delete go through a bare table or through rename / project / extend / where
+// compositions of it (kind <stmt>-through-<view>); the harness translates such a statement to the
+// base table for the model (renamed column = stored column, extended column = column + constant).
+// insert-from-query sources: t where P, (t join w) where P, (w join t) where P with w small or
+// large (so that the optimiser picks either join order).
+// `set` lists include the key column the statement iterates by (k = k + d, k = k - d), the
+// indexed column, constants, a swap, and expressions over an extended column.
 
 import (
 	"fmt"
@@ -51,26 +57,44 @@ func (r vaRow) set(c string, v int) vaRow {
 	return r
 }
 
+// vaRef: a column visible through a view: value = stored column `base` + off
+type vaRef struct {
+	name, base string
+	off        int
+}
+
+func (c vaRef) val(x vaRow) int { return x.get(c.base) + c.off }
+
 type vaPred struct {
 	src, enc string
 	f        func(vaRow) bool
 }
 
-var vaCols = []string{"k", "a", "b"}
+var vaAll = vaPred{"", "all", func(vaRow) bool { return true }}
 
-func vaGenPred(r *rand.Rand, depth int) vaPred {
+func vaAnd(p, q vaPred) vaPred {
+	if p.enc == "all" {
+		return q
+	}
+	if q.enc == "all" {
+		return p
+	}
+	return vaPred{"(" + p.src + " and " + q.src + ")", "and " + p.enc + " " + q.enc,
+		func(x vaRow) bool { return p.f(x) && q.f(x) }}
+}
+
+func vaGenPred(r *rand.Rand, cols []vaRef, depth int) vaPred {
 	if depth > 0 && r.Intn(3) == 0 {
-		p, q := vaGenPred(r, depth-1), vaGenPred(r, depth-1)
+		p, q := vaGenPred(r, cols, depth-1), vaGenPred(r, cols, depth-1)
 		if r.Intn(2) == 0 {
-			return vaPred{"(" + p.src + " and " + q.src + ")", "and " + p.enc + " " + q.enc,
-				func(x vaRow) bool { return p.f(x) && q.f(x) }}
+			return vaAnd(p, q)
 		}
 		return vaPred{"(" + p.src + " or " + q.src + ")", "or " + p.enc + " " + q.enc,
 			func(x vaRow) bool { return p.f(x) || q.f(x) }}
 	}
-	col := vaCols[r.Intn(3)]
+	col := cols[r.Intn(len(cols))]
 	v := r.Intn(14) - 1
-	if col == "k" && r.Intn(3) == 0 {
+	if col.base == "k" && r.Intn(3) == 0 {
 		v = 15 + r.Intn(40)
 	}
 	ops := []struct {
@@ -85,13 +109,94 @@ func vaGenPred(r *rand.Rand, depth int) vaPred {
 		{">", "gt", func(a, b int) bool { return a > b }},
 	}
 	op := ops[r.Intn(len(ops))]
-	return vaPred{fmt.Sprintf("%s %s %d", col, op.src, v), fmt.Sprintf("c %s %s %d", col, op.enc, v),
-		func(x vaRow) bool { return op.f(x.get(col), v) }}
+	enc := fmt.Sprintf("c %s %s %d", col.base, op.enc, v)
+	if col.off != 0 {
+		enc = fmt.Sprintf("cp %s %d %s %d", col.base, col.off, op.enc, v)
+	}
+	return vaPred{fmt.Sprintf("%s %s %d", col.name, op.src, v), enc,
+		func(x vaRow) bool { return op.f(col.val(x), v) }}
 }
 
+// vaView: a table or an updateable composition over it
+type vaView struct {
+	src, kind string
+	cols      []vaRef
+	inner     vaPred // where inside the view (on the base table)
+}
+
+func vaBase() []vaRef { return []vaRef{{"k", "k", 0}, {"a", "a", 0}, {"b", "b", 0}} }
+
+func vaGenView(r *rand.Rand, table string) vaView {
+	base := vaBase()
+	rename := func(cols []vaRef, c, to string) []vaRef {
+		out := append([]vaRef{}, cols...)
+		for i := range out {
+			if out[i].name == c {
+				out[i].name = to
+			}
+		}
+		return out
+	}
+	switch r.Intn(12) {
+	case 0, 1, 2, 3:
+		return vaView{table, "bare", base, vaAll}
+	case 4:
+		c := []string{"a", "b", "k"}[r.Intn(3)]
+		return vaView{fmt.Sprintf("(%s rename %s to x)", table, c), "rename", rename(base, c, "x"), vaAll}
+	case 5:
+		c := []string{"a", "b"}[r.Intn(2)]
+		var cols []vaRef
+		for _, x := range base {
+			if x.name == "k" || x.name == c {
+				cols = append(cols, x)
+			}
+		}
+		return vaView{fmt.Sprintf("(%s project k, %s)", table, c), "project", cols, vaAll}
+	case 6:
+		c := []string{"a", "b", "k"}[r.Intn(3)]
+		n := 1 + r.Intn(3)
+		return vaView{fmt.Sprintf("(%s extend z = %s + %d)", table, c, n), "extend", append(base, vaRef{"z", c, n}), vaAll}
+	case 7:
+		p := vaGenPred(r, base, 0)
+		return vaView{fmt.Sprintf("(%s where %s)", table, p.src), "where", base, p}
+	case 8: // rename, then project away the other column
+		return vaView{fmt.Sprintf("(%s rename b to x project k, x)", table), "rename+project",
+			[]vaRef{{"k", "k", 0}, {"x", "b", 0}}, vaAll}
+	case 9:
+		p := vaGenPred(r, base, 0)
+		return vaView{fmt.Sprintf("(%s where %s rename a to y)", table, p.src), "where+rename", rename(base, "a", "y"), p}
+	case 10:
+		n := 1 + r.Intn(3)
+		return vaView{fmt.Sprintf("(%s rename a to y extend z = y + %d)", table, n), "rename+extend",
+			append(rename(base, "a", "y"), vaRef{"z", "a", n}), vaAll}
+	default:
+		return vaView{fmt.Sprintf("(%s extend z = b + 2 project k, a, z)", table), "extend+project",
+			[]vaRef{{"k", "k", 0}, {"a", "a", 0}, {"z", "b", 2}}, vaAll}
+	}
+}
+
+// sigKind: every composition that contains a project counts as "project" in the F signature
+func (v vaView) sigKind() string {
+	if strings.Contains(v.kind, "project") {
+		return "project"
+	}
+	return v.kind
+}
+
+func (v vaView) ref(base string) (vaRef, bool) {
+	for _, c := range v.cols {
+		if c.base == base && c.off == 0 {
+			return c, true
+		}
+	}
+	return vaRef{}, false
+}
+
+// vaAsg: visible column `col` (stored as base) = constant v, or = src + v
 type vaAsg struct {
-	col, src string // src "" = constant
-	v        int
+	col vaRef
+	src *vaRef
+	v   int
 }
 
 func vaDump(db *db19.Database, table string) ([]vaRow, string) {
@@ -103,20 +208,23 @@ func vaDump(db *db19.Database, table string) ([]vaRow, string) {
 		var rs []vaRow
 		for it.Next(rt); !it.Eof(); it.Next(rt) {
 			rec := rt.GetRecord(it.CurOff())
-			rs = append(rs, vaRow{ToInt(rec.GetVal(0)), ToInt(rec.GetVal(1)), ToInt(rec.GetVal(2))})
+			rs = append(rs, vaRow{vaInt(rec, 0), vaInt(rec, 1), vaInt(rec, 2)})
 		}
-		sort.Slice(rs, func(i, j int) bool { return rs[i].k < rs[j].k })
-		ss := make([]string, len(rs))
-		for i, x := range rs {
-			ss[i] = fmt.Sprintf("%d,%d,%d", x.k, x.a, x.b)
-		}
-		per = append(per, strings.Join(ss, " "))
+		per = append(per, vaText(rs))
 		rows = rs
 	}
 	if per[0] != per[1] {
 		return rows, "INDEX-MISMATCH " + per[0] + " / " + per[1]
 	}
 	return rows, per[0]
+}
+
+// vaInt: a field as integer; an empty (blanked) field shows as -999
+func vaInt(rec Record, i int) int {
+	if rec.GetRaw(i) == "" {
+		return -999
+	}
+	return ToInt(rec.GetVal(i))
 }
 
 func vaText(rows []vaRow) string {
@@ -143,8 +251,28 @@ func TestVerifC24Actions(t *testing.T) {
 		db19.StartConcur(db, time.Hour)
 		DoAdmin(db, "create t (k, a, b) key(k) index(a)", nil)
 		DoAdmin(db, "create u (k, a, b) key(k) index(a)", nil)
+		DoAdmin(db, "create w (a, d) key(a)", nil)
 		tr.Q("reset", "ok")
 		hist := ""
+		// w: small or large, so that a join with t is executed in either order
+		wkeys := map[int]bool{}
+		nw := []int{0, 1, 2, 7, 8, 30}[r.Intn(6)]
+		for i := 0; i < nw; i++ {
+			a := r.Intn(8)
+			if i >= 8 {
+				a = 100 + i
+			}
+			if wkeys[a] {
+				continue
+			}
+			wkeys[a] = true
+			ut := db.NewUpdateTran()
+			DoAction(th, ut, fmt.Sprintf("insert { a: %d, d: %d } into w", a, i))
+			ut.Commit()
+			tr.Q(fmt.Sprintf("insw %d %d", a, i), "1")
+		}
+		hist += fmt.Sprintf(" w has %d rows", len(wkeys))
+		tr.Count(fmt.Sprint("w-rows=", len(wkeys)))
 		failed := false
 		fail := func(sig, desc string) {
 			failed = true
@@ -159,25 +287,32 @@ func TestVerifC24Actions(t *testing.T) {
 			before, _ := vaDump(db, table)
 			beforeT, _ := vaDump(db, "t")
 			var action, enc, kind string
+			viewKind := "-"
 			var want []vaRow // expected rows of `table` when the statement succeeds
 			wantN := 0
 			switch c := r.Intn(10); {
-			case c < 4:
+			case c < 3:
 				kind = "insert"
 				x := vaRow{r.Intn(12), r.Intn(8), r.Intn(8)}
 				action = fmt.Sprintf("insert { k: %d, a: %d, b: %d } into %s", x.k, x.a, x.b, table)
 				enc = fmt.Sprintf("ins %d %d %d %d", ti, x.k, x.a, x.b)
 				want = append(append([]vaRow{}, before...), x)
 				wantN = 1
-			case c < 6:
+			case c < 5:
+				view := vaGenView(r, table)
+				viewKind = view.kind
 				kind = "delete"
-				p := vaGenPred(r, 1)
-				action = "delete " + table + " where " + p.src
-				enc = fmt.Sprintf("del %d %s", ti, p.enc)
-				if r.Intn(6) == 0 {
-					action, enc = "delete "+table, fmt.Sprintf("del %d all", ti)
-					p.f = func(vaRow) bool { return true }
+				if view.kind != "bare" {
+					kind = "delete-through-" + view.sigKind()
 				}
+				p := vaAll
+				action = "delete " + view.src
+				if r.Intn(6) != 0 {
+					p = vaGenPred(r, view.cols, 1)
+					action += " where " + p.src
+				}
+				p = vaAnd(view.inner, p)
+				enc = fmt.Sprintf("del %d %s", ti, p.enc)
 				for _, x := range before {
 					if p.f(x) {
 						wantN++
@@ -185,46 +320,78 @@ func TestVerifC24Actions(t *testing.T) {
 						want = append(want, x)
 					}
 				}
-			case c < 9:
-				kind = "update"
-				p := vaGenPred(r, 1)
-				where, penc := " where "+p.src, p.enc
-				if r.Intn(5) == 0 {
-					where, penc = "", "all"
-					p.f = func(vaRow) bool { return true }
+			case c < 8:
+				view := vaGenView(r, table)
+				viewKind = view.kind
+				p := vaAll
+				where := ""
+				if r.Intn(5) != 0 {
+					p = vaGenPred(r, view.cols, 1)
+					where = " where " + p.src
 				}
+				p = vaAnd(view.inner, p)
+				kcol, _ := view.ref("k")
+				acol, hasA := view.ref("a")
+				bcol, hasB := view.ref("b")
 				var asgs []vaAsg
-				switch r.Intn(6) {
+				kind = "update"
+				switch r.Intn(7) {
 				case 0: // key column, increasing: the statement iterates by the column it changes
-					asgs = []vaAsg{{"k", "k", 20 + r.Intn(3)}}
+					asgs = []vaAsg{{kcol, &kcol, 20 + r.Intn(3)}}
 					kind = "update-key-up"
 				case 1: // key column, decreasing
-					asgs = []vaAsg{{"k", "k", -(20 + r.Intn(3))}}
+					asgs = []vaAsg{{kcol, &kcol, -(20 + r.Intn(3))}}
 					kind = "update-key-down"
 				case 2: // indexed column, both directions
-					asgs = []vaAsg{{"a", "a", r.Intn(7) - 3}}
-					kind = "update-index-col"
+					if hasA {
+						asgs = []vaAsg{{acol, &acol, r.Intn(7) - 3}}
+						kind = "update-index-col"
+					}
 				case 3:
-					asgs = []vaAsg{{"a", "", r.Intn(8)}, {"b", "b", 1}}
+					if hasA && hasB {
+						asgs = []vaAsg{{acol, nil, r.Intn(8)}, {bcol, &bcol, 1}}
+					}
 				case 4: // swap: every expression reads the selected row
-					asgs = []vaAsg{{"a", "b", 0}, {"b", "a", 0}}
-					kind = "update-swap"
+					if hasA && hasB {
+						asgs = []vaAsg{{acol, &bcol, 0}, {bcol, &acol, 0}}
+						kind = "update-swap"
+					}
+				case 5: // from any visible column (an extended one included)
+					src := view.cols[r.Intn(len(view.cols))]
+					if hasB {
+						asgs = []vaAsg{{bcol, &src, r.Intn(3)}}
+					} else if hasA {
+						asgs = []vaAsg{{acol, &src, r.Intn(3)}}
+					}
 				default:
-					asgs = []vaAsg{{"k", "k", 1 - 2*r.Intn(2)}, {"b", "", r.Intn(8)}}
+					asgs = []vaAsg{{kcol, &kcol, 1 - 2*r.Intn(2)}}
+					if hasB {
+						asgs = append(asgs, vaAsg{bcol, nil, r.Intn(8)})
+					}
 					kind = "update-key-step"
+				}
+				if asgs == nil { // the view does not show the column: set whatever non-key column it shows
+					for _, c := range view.cols {
+						if c.off == 0 && c.base != "k" {
+							asgs = []vaAsg{{c, nil, r.Intn(8)}}
+						}
+					}
+				}
+				if view.kind != "bare" {
+					kind = "update-through-" + view.sigKind()
 				}
 				var ss, es []string
 				for _, a := range asgs {
-					if a.src == "" {
-						ss = append(ss, fmt.Sprintf("%s = %d", a.col, a.v))
-						es = append(es, fmt.Sprintf("%s k %d", a.col, a.v))
+					if a.src == nil {
+						ss = append(ss, fmt.Sprintf("%s = %d", a.col.name, a.v))
+						es = append(es, fmt.Sprintf("%s k %d", a.col.base, a.v))
 					} else {
-						ss = append(ss, fmt.Sprintf("%s = %s + %d", a.col, a.src, a.v))
-						es = append(es, fmt.Sprintf("%s p %s %d", a.col, a.src, a.v))
+						ss = append(ss, fmt.Sprintf("%s = %s + %d", a.col.name, a.src.name, a.v))
+						es = append(es, fmt.Sprintf("%s p %s %d", a.col.base, a.src.base, a.src.off+a.v))
 					}
 				}
-				action = "update " + table + where + " set " + strings.Join(ss, ", ")
-				enc = fmt.Sprintf("upd %d %d %s %s", ti, len(asgs), strings.Join(es, " "), penc)
+				action = "update " + view.src + where + " set " + strings.Join(ss, ", ")
+				enc = fmt.Sprintf("upd %d %d %s %s", ti, len(asgs), strings.Join(es, " "), p.enc)
 				oldSel := map[int]bool{}
 				for _, x := range before {
 					if p.f(x) {
@@ -236,10 +403,10 @@ func TestVerifC24Actions(t *testing.T) {
 					if p.f(x) {
 						y := x
 						for _, a := range asgs {
-							if a.src == "" {
-								y = y.set(a.col, a.v)
+							if a.src == nil {
+								y = y.set(a.col.base, a.v)
 							} else {
-								y = y.set(a.col, x.get(a.src)+a.v)
+								y = y.set(a.col.base, a.src.val(x)+a.v)
 							}
 						}
 						if y.k != x.k && oldSel[y.k] {
@@ -259,12 +426,22 @@ func TestVerifC24Actions(t *testing.T) {
 				kind = "insert-query"
 				ti, table = 1, "u"
 				before, _ = vaDump(db, "u")
-				p := vaGenPred(r, 1)
-				action = "insert t where " + p.src + " into u"
-				enc = "insq " + p.enc
+				p := vaGenPred(r, vaBase(), 1)
+				j := r.Intn(3)
+				switch j {
+				case 0:
+					action = "insert t where " + p.src + " into u"
+				case 1:
+					action = "insert t join w where " + p.src + " into u"
+					kind = "insert-query-join"
+				default:
+					action = "insert w join t where " + p.src + " into u"
+					kind = "insert-query-join"
+				}
+				enc = fmt.Sprintf("insq %d %s", j, p.enc)
 				want = append([]vaRow{}, before...)
 				for _, x := range beforeT {
-					if p.f(x) {
+					if p.f(x) && (j == 0 || wkeys[x.a]) {
 						want = append(want, x)
 						wantN++
 					}
@@ -280,6 +457,7 @@ func TestVerifC24Actions(t *testing.T) {
 			}
 			hist += " ; " + action
 			tr.Count("kind=" + kind)
+			tr.Count("view=" + viewKind)
 			ut := db.NewUpdateTran()
 			got := 0
 			msg := lib.Catch(func() { got = DoAction(th, ut, action) })
@@ -305,7 +483,7 @@ func TestVerifC24Actions(t *testing.T) {
 				tr.Q(enc, fmt.Sprint(got))
 				_, after := vaDump(db, table)
 				if got != wantN {
-					fail("action:"+kind, fmt.Sprintf("[count] %q reported %d, the predicate selects %d of: %s;", action, got, wantN, vaText(before)))
+					fail("action:"+kind, fmt.Sprintf("[count] %q reported %d, its query selects %d rows; %s before: %s;", action, got, wantN, table, vaText(before)))
 				} else if wantDup || after != vaText(want) {
 					fail("action:"+kind, fmt.Sprintf("[rows] %q on %s gave %s, expected %s;", action, vaText(before), after, vaText(want)))
 				}
